@@ -106,7 +106,12 @@ def make_classes(trace, verdicts, queue_results=None):
                       getattr(creds, 'authzid', None),
                       self.session.security == 'TLS')
             tr(self.session).creds.append(creds)
-            _apply(reply, verdict('auth', self.session))
+            vd = verdict('auth', self.session)
+            if vd == 'raise-attr':
+                # an application bug of the usual kind: unknown user
+                raise AttributeError("'NoneType' object has no attribute "
+                                     "'password'")
+            _apply(reply, vd)
 
         def handle_mail(self, reply, sender, params):
             _apply(reply, verdict('mail', self.session))
